@@ -109,6 +109,36 @@ example : (runAll {} [.input (.watchAll 0), .input (.dgram 5 false offerTtl3), .
     some ([2000], [(0, 3), (1000, 1)]) := by
   decide +kernel
 
+/-- STORED ⇒ LIVE (C05's link to the timer side): in every reachable state a stored service (source a, key k) that holds an
+expiry handle q - i.e. was last offered with a finite TTL - is within that TTL of its MOST RECENT offer: the handle is
+scheduled for (time of that offer) + ttl and the clock has not passed it; or the handle has fired and the expiry callback
+is in the ready queue (it removes the entry in this very instant: `c09_no_time_while_ready`) -/
+theorem c05_stored_is_within_ttl (s0 s : Stack) (es : List Event) (h0 : s0.found = []) (hl : s0.storeLog = [])
+    (htm : s0.loop.timers = []) (hr : ∀ r ∈ s0.loop.ready, isSvcExpiry r.cb = false)
+    (hrun : runAll s0 es = some s) (a : Addr) (k : SvcKey) (q : Nat) (hheld : Stack.held s a k = some q) :
+    (∃ T ttl, lastRefresh s.refreshLog a k = some (T, ttl) ∧ s.loop.now ≤ T + ttl * TICKS_PER_S ∧
+        ∃ t ∈ s.loop.timers, t.seq = q ∧ t.cb = .expiredSvc a k ∧ t.deadline = T + ttl * TICKS_PER_S) ∨
+    (∃ r ∈ s.loop.ready, r.seq = some q ∧ r.cb = .expiredSvc a k) := by
+  have hinv := c09_timer_invariant s0 s es h0 hl (by intro t ht; rw [htm] at ht; cases ht) hr hrun a k
+  rw [hheld] at hinv
+  simp only at hinv
+  rcases hinv with ⟨hT1, _⟩ | ⟨_, hR1⟩
+  · left
+    have hm : q ∈ hT s a k := by rw [hT1]; exact List.mem_singleton.mpr rfl
+    unfold hT at hm
+    obtain ⟨t, ht, hq⟩ := List.mem_map.mp hm
+    obtain ⟨htm', hfor⟩ := List.mem_filter.mp ht
+    have hcb : t.cb = .expiredSvc a k := for_iff.mp hfor
+    obtain ⟨T, ttl, h1, h2⟩ := c09_deadline_is_last_refresh_plus_ttl s0 s es h0 hl htm hr hrun t htm' a k hcb
+    have h3 := c09_clock_never_passes_a_deadline s0 s es htm hrun t htm'
+    exact ⟨T, ttl, h1, by rw [← h2]; exact h3, t, htm', hq, hcb, h2⟩
+  · right
+    have hm : some q ∈ hR s a k := by rw [hR1]; exact List.mem_singleton.mpr rfl
+    unfold hR at hm
+    obtain ⟨r, hr', hq⟩ := List.mem_map.mp hm
+    obtain ⟨hrm, hfor⟩ := List.mem_filter.mp hr'
+    exact ⟨r, hrm, hq, for_iff.mp hfor⟩
+
 /-! ### the deadline of a subscription's expiry handle (C06 / C09 for the per-instance stores) -/
 
 theorem inv7_runAll (s s' : Stack) (es : List Event) (h : runAll s es = some s') (hi : Inv7 s) : Inv7 s' := by
